@@ -251,3 +251,19 @@ pub fn enum_items(name: &str) -> Vec<u32> {
     v.dedup();
     v
 }
+
+/// Serialized names of `class` that more than one *canonical* property maps
+/// to (a database quirk: Sound.MaxDistance / Sound.RollOffMaxDistance).
+pub fn ser_conflicts(class: &str) -> Vec<(String, Vec<String>)> {
+    let cp = class_props(class);
+    let mut by_ser: BTreeMap<String, Vec<String>> = BTreeMap::new();
+    for sp in cp.plain.iter().chain(cp.migrating.iter()) {
+        if let Some(ser) = &sp.view.ser {
+            let e = by_ser.entry(ser.name.clone()).or_default();
+            if !e.contains(&sp.view.canonical) {
+                e.push(sp.view.canonical.clone());
+            }
+        }
+    }
+    by_ser.into_iter().filter(|(_, v)| v.len() > 1).collect()
+}
